@@ -400,6 +400,8 @@ def rule_traversal(ck, F, X):
                     ck.ok("R3", f"{short}:loop#{n_loops}", Hh.sp(x), f"{short}: loop over `{src[:60]}` exits only on exhaustion or `?`", fn=short)
             if x.get("k") == "MethodCall" and x["name"] in BAD_VEC_OPS:
                 rty = (Hh.strip(x["recv"]).get("adj_ty") or Hh.strip(x["recv"]).get("ty") or "")
+                if x["name"] == "clear" and _clear_then_refill(nb, x):
+                    continue   # `v.clear(); v.extend(base.fields.iter().cloned())` is `v.clone_from(&base.fields)`
                 if "Vec<model::field::Field>" in rty:
                     ck.violation("R3", f"{short}:vec-op:{x['name']}", Hh.sp(x), f"{short}: the field list is modified with `{x['name']}`: declaration order/content is not preserved", fn=short)
     ck.floor("R3", "child loops in the flattening functions", n_loops, 4)
@@ -469,28 +471,68 @@ def rule_dispatch(ck, F, X):
         if short not in REQUIRED_DISPATCH:
             continue
         need, what = REQUIRED_DISPATCH[short]
-        nb = Hh.norm_body(b)
+        # the child tags under which something is done inside an iteration over children(): conditions of loops, iterator filters,
+        # `if`, `match` alike (not the `find(.. == "extension")` that locates the container itself: that is no iteration context)
         tags = set()
-        for x in Hh.exprs(nb["value"]):
-            # inside loops over children (not the `find(.. == "extension")` that locates the container itself)
-            if x.get("k") == "For":
-                for y in Hh.exprs(x["body"]):
-                    if y.get("k") == "Binary" and y["op"] in ("Eq",):
-                        for side, other in ((y["a"], y["b"]), (y["b"], y["a"])):
-                            s = Hh.strip(side)
-                            if s.get("k") == "Lit" and s.get("lit") == "str" and "tag_name" in Hh.describe(other) + _resolve_local(nb, other):
-                                tags.add(s["v"])
-                    if y.get("k") == "Match":
-                        if "tag_name" in Hh.describe(y["scrut"]) + _resolve_local(nb, y["scrut"]):
-                            for a in y["arms"]:
-                                for l in (_pat_literals(a["pat"]) or []):
-                                    tags.add(l)
+        W = og.EnvWalker(F)
+
+        def cb(e, env, ctx, tags=tags):
+            if e.get("k") not in ("Call", "MethodCall"):
+                return
+            stars = [c for c in ctx if c[0] == "star"]
+            if not any(isinstance(st[1], tuple) and st[1][0] == "call" and str(st[1][1]).rsplit("::", 1)[-1] == "children" for st in stars):
+                return
+            for c in ctx:
+                if c[0] != "alt" or c[2] is not True:
+                    continue
+                cond = c[1]
+                cs = og.nf_str(cond)
+                if "tag_name" not in cs:
+                    continue
+                if cond[0] == "islet":
+                    for lit in re.findall(r"'([^']*)'", cond[1]):
+                        tags.add(lit)
+                else:
+                    for sub in _eq_literals(cond):
+                        tags.add(sub)
+        try:
+            W.walk_fn(b["path"], cb)
+        except og.Unrecognised:
+            pass
         missing = need - tags
         for m in sorted(missing):
             ck.violation("R4", f"{short}:{m}", b["span"],
                          f"{short} ({what} content): child `{m}` is not dispatched on: such children are silently ignored or mis-read", fn=short)
         if not missing:
             ck.ok("R4", f"{short}:dispatch", b["span"], f"{short} handles {sorted(tags)} ⊇ {sorted(need)}", fn=short)
+
+
+def _clear_then_refill(nb, clear_call):
+    """the `clear()` is directly followed, in the same block, by an `extend` / `extend_from_slice` / `clone_from` on the same vector"""
+    recv = Hh.describe(clear_call["recv"])
+    for blk in Hh.exprs(nb["value"]):
+        if blk.get("k") != "Block":
+            continue
+        stmts = [Hh.strip(st["e"]) for st in blk["b"]["stmts"] if st.get("k") in ("Semi", "Expr")] + ([Hh.strip(blk["b"]["tail"])] if blk["b"].get("tail") else [])
+        for i, st in enumerate(stmts):
+            if st is clear_call or (st.get("hid") is not None and st.get("hid") == clear_call.get("hid")):
+                nxt = stmts[i + 1] if i + 1 < len(stmts) else None
+                return bool(nxt) and nxt.get("k") == "MethodCall" and nxt["name"] in ("extend", "extend_from_slice", "clone_from", "append") \
+                    and Hh.describe(nxt["recv"]) == recv
+    return False
+
+
+def _eq_literals(cond):
+    """string literals that a (conjunction of) equality tests compares something with"""
+    out = []
+    if isinstance(cond, tuple):
+        if cond[0] == "binop" and cond[1] == "And":
+            out += _eq_literals(cond[2]) + _eq_literals(cond[3])
+        elif cond[0] == "binop" and cond[1] == "Eq":
+            for side, other in ((cond[2], cond[3]), (cond[3], cond[2])):
+                if isinstance(side, tuple) and side[0] == "lit" and isinstance(side[1], str) and "tag_name" in og.nf_str(other):
+                    out.append(side[1])
+    return out
 
 
 def _resolve_local(nb, e):
